@@ -5,6 +5,7 @@ mod counter;
 mod cycles;
 mod enc_x86;
 mod hist;
+mod panics;
 mod rng;
 mod threads;
 mod util;
@@ -28,6 +29,7 @@ fn main() {
         "counter" => counter::run(&a, &mut out),
         "alloc" => alloc::run(&a, &mut out),
         "threads" => threads::run(&a, &mut out),
+        "panics" => panics::run(&a, &mut out),
         x => {
             eprintln!("unknown command {x}");
             std::process::exit(2);
